@@ -8,11 +8,12 @@ from .sym import (SV, State, Unsupported, NONE, MARKER, mk_int, mk_bool,
 from .engine import Engine, Obl, FIELDS, CLASS_IDS, PERSISTENT, field_sort
 from .expr import ExprMixin, exc, exc_matches
 from .spec import SpecMixin, SpecCtx, Contract, parse_kind, TK, TV, REPK, REPV
+from .dtypes import DTypeMixin
 
 CMP = z3.Function("compare", KS, KS, INT)
 
 
-class Exec(ExprMixin, SpecMixin, Engine):
+class Exec(ExprMixin, SpecMixin, DTypeMixin, Engine):
 
     # ================================================================ calls
     def ev_Call(self, node, st):
@@ -65,6 +66,9 @@ class Exec(ExprMixin, SpecMixin, Engine):
         return res
 
     def apply(self, s, f, args, kw):
+        r = self.dt_apply(s, f, args, kw)
+        if r is not None:
+            return r
         if f.kind == "bmeth":
             obj, name = f.x
             if obj.kind == "list":
@@ -117,6 +121,10 @@ class Exec(ExprMixin, SpecMixin, Engine):
                 return [(s, mk_int(len(a.x)))]
             if a.kind == "ref":
                 return self.call_method(s, a, "__len__", [], {})
+            if a.kind == "any":
+                from .dtypes import PY_ISBYTES, PY_BLEN
+                if self.valid(s, PY_ISBYTES(a.z)):
+                    return [(s, mk_int(PY_BLEN(a.z)))]
         if name == "compare":
             a, b = args
             if a.kind == "K" and b.kind == "K":
@@ -150,6 +158,10 @@ class Exec(ExprMixin, SpecMixin, Engine):
             o = args[0]
             if o.kind == "ref":
                 return [(s, mk_bool(z3.Or(*[self.isinst(s, o, c) for c in args[1].x])))]
+        if name == "isinstance" and len(args) == 2:
+            r = self.dt_isinstance(s, args[0], args[1])
+            if r is not None:
+                return r
         if name == "isinstance":
             o, c = args
             if o.kind == "ref" and c.kind == "cls":
@@ -179,6 +191,10 @@ class Exec(ExprMixin, SpecMixin, Engine):
                     return [(s, mk_bool(z3.And(isref, cid == c.x[1])))]
                 subs = [k for k in CLASS_IDS if c.x in self.mro(k)]
                 return [(s, mk_bool(z3.And(isref, z3.Or(*[cid == CLASS_IDS[k] for k in subs]))))]
+        if name == "type" and len(args) == 1 and args[0].kind == "any":
+            return [(s, SV("typeof", args[0].z))]
+        if name == "super" and not args:
+            return self.dt_super(s)
         if name == "type" and len(args) == 1 and args[0].kind == "ref":
             return [(s, SV("cls", None, ("dyn", self.cls_of(s, args[0]))))]
         if name == "bool":
